@@ -194,6 +194,13 @@ func (w *Walker) walk(fr *Frame, visit func(fr *Frame)) {
 			// (a function literal of a package-level table - map[K]func… - has the package
 			// initializer as its parent and captures nothing: it is entered at the call)
 			nfr.Call = e.Site.(ssa.CallInstruction)
+			// the chain tells which function the value is (a strategy record handed down by
+			// the caller): only that one is entered
+			if cc := nfr.Call.Common(); !cc.IsInvoke() {
+				if rf := resolveFnRaw(cc.Value, fr, 0); rf != nil && rf != e.Callee {
+					continue
+				}
+			}
 			// a call through a dispatch table reaches exactly the table's entries, each under
 			// the assumption that the key equals the constant it is stored under
 			if key, entries := w.cx.tableDispatch(nfr.Call); entries != nil {
